@@ -22,6 +22,10 @@ type Entry struct {
 	Dir  bool   `json:"dir,omitempty"`
 	// ZeroCS > 0: every odd block of ZeroCS bytes of the file is zero
 	ZeroCS int64 `json:"zero_cs,omitempty"`
+	// Link != "": the entry is a symbolic link with this target that cannot be
+	// sent as a file (dangling, or pointing to a directory); it is expected to be
+	// left out of the transfer, and nothing else with it
+	Link string `json:"link,omitempty"`
 }
 
 // Tree is a generated source tree. Content of every file is a function of
@@ -90,6 +94,12 @@ func (t Tree) Materialize(root string) error {
 		if err := os.MkdirAll(filepath.Dir(p), 0755); err != nil {
 			return err
 		}
+		if e.Link != "" {
+			if err := os.Symlink(e.Link, p); err != nil {
+				return err
+			}
+			continue
+		}
 		buf := make([]byte, e.Size)
 		t.Fill(e, 0, buf)
 		if err := os.WriteFile(p, buf, 0644); err != nil {
@@ -103,7 +113,7 @@ func (t Tree) Materialize(root string) error {
 func (t Tree) FileCount() int {
 	n := 0
 	for _, e := range t.Entries {
-		if !e.Dir {
+		if !e.Dir && e.Link == "" {
 			n++
 		}
 	}
@@ -218,6 +228,13 @@ func GenTree(seed uint64, shape, names string, cs int64, maxBytes int64) Tree {
 		for i := 0; i < n; i++ {
 			t.Entries = append(t.Entries, Entry{Rel: fmt.Sprintf("%s/%s-%05d", d, strings.Repeat("n", 60), i), Size: int64(r.Intn(3))})
 		}
+	case "linksiblings":
+		// symbolic links that cannot be sent as files (dangling / to a directory)
+		// in the middle of their directories: everything around them is hosted
+		t.Entries = append(t.Entries,
+			Entry{Rel: "a.bin", Size: capSize(sizes[r.Intn(len(sizes))])}, Entry{Rel: "l-dangling", Link: "does-not-exist"}, Entry{Rel: "m.bin", Size: capSize(cs + 1)},
+			Entry{Rel: "n-dirlink", Link: "sub"}, Entry{Rel: "sub", Dir: true}, Entry{Rel: "sub/b-dangling", Link: "../nowhere"}, Entry{Rel: "sub/x.bin", Size: capSize(2 * cs)},
+			Entry{Rel: "sub/deep", Dir: true}, Entry{Rel: "sub/deep/y.bin", Size: 3}, Entry{Rel: "z.bin", Size: capSize(int64(r.Intn(int(cs + 1))))}, Entry{Rel: "zz-empty", Dir: true})
 	case "prefixnames":
 		// names that are string prefixes of their neighbours in sort order:
 		// empty directories next to files / directories whose name continues
@@ -323,6 +340,9 @@ func ExpectedDigest(t Tree, prefix string) map[string]DigestEntry {
 		addParents(prefix + "x")
 	}
 	for _, e := range t.Entries {
+		if e.Link != "" {
+			continue
+		}
 		rel := prefix + e.Rel
 		addParents(rel)
 		if e.Dir {
